@@ -216,6 +216,27 @@ func F2(thorough bool) []*Program {
 			fn("NewT1", nil, []string{"*T1"}, false),
 			func() Prov { p := fn("NewT3", nil, []string{"*T3"}, false); p.Bind = "I0"; return p }(),
 			fn("NewT2", []string{"*T1", "I0"}, []string{"*T2"}, false)}}}})
+	// Bind: concrete type and interface both needed, in every order in which the walk from
+	// the requested type can meet them
+	for vi, v := range [][2][]string{
+		{{"I0"}, {"*T1", "*T2"}},        // concrete at depth 1, interface below
+		{{"*T1"}, {"I0", "*T2"}},        // interface at depth 1, concrete below
+		{{"*T1", "I0"}, {"*T2", "*T1"}}, // both below and concrete again at depth 1
+	} {
+		for _, e := range []bool{false, true} {
+			add(&Program{Desc: fmt.Sprintf("bind both concrete and interface needed order=%d err=%v", vi, e), Types: typeNames(3), Ifaces: map[string]string{"I0": "T1"}, Decls: []Decl{{
+				Name: "InitP", Request: "*T0", Provs: []Prov{
+					func() Prov { p := fn("NewT1", nil, []string{"*T1"}, e); p.Bind = "I0"; return p }(),
+					fn("NewT2", v[0], []string{"*T2"}, false),
+					fn("NewT0", v[1], []string{"*T0"}, false),
+				}}}})
+		}
+	}
+	add(&Program{Desc: "bind both needed by the root, concrete first", Types: typeNames(2), Ifaces: map[string]string{"I0": "T1"}, Decls: []Decl{{
+		Name: "InitP", Request: "*T0", Provs: []Prov{
+			func() Prov { p := fn("NewT1", nil, []string{"*T1"}, false); p.Bind = "I0"; return p }(),
+			fn("NewT0", []string{"*T1", "I0"}, []string{"*T0"}, false),
+		}}}})
 	// Bind written around Async
 	add(&Program{Desc: "bind-outside-async", Types: typeNames(3), Ifaces: map[string]string{"I0": "T1"}, Decls: []Decl{{
 		Name: "InitP", Request: "*T0", Provs: []Prov{
@@ -531,6 +552,14 @@ func FN() []*Program {
 		named("InitBar2", "Bar", "Bar:Foo,Foo0", "Foo:", "Foo0:"))
 	add("type FooCh next to an awaited Foo", []string{"Foo", "FooCh", "Bar", "Baz"}, nil, nil,
 		named("InitBar", "Bar", "Bar:Foo,FooCh,Baz", "Foo:!a", "FooCh:!a", "Baz:Foo!a"))
+	// the FooCh value is named before Foo's done-channel: as an injector argument, as the
+	// result of an earlier synchronous provider, and with Foo awaited in a goroutine or in main
+	add("type FooCh as injector argument next to an awaited Foo", []string{"Foo", "FooCh", "Bar", "Baz", "Qux"}, nil, nil,
+		named("InitBar", "Bar", "Bar:Baz,FooCh,Qux", "Foo:!a", "Qux:!a", "Baz:Foo,Qux!a"))
+	add("type FooCh from an earlier sync provider next to an awaited Foo", []string{"Foo", "FooCh", "Bar", "Baz", "Qux"}, nil, nil,
+		named("InitBar", "Bar", "Bar:Baz,FooCh,Qux", "FooCh:", "Foo:!a", "Qux:!a", "Baz:Foo,Qux!a"))
+	add("type FooCh consumed first, Foo awaited in main", []string{"Foo", "FooCh", "Bar", "Qux"}, nil, nil,
+		named("InitBar", "Bar", "Bar:FooCh,Foo,Qux", "FooCh:", "Qux:!a", "Foo:!a"))
 	add("type Err0 with two fallible providers", []string{"Err0", "A", "B"}, nil, nil,
 		named("InitB", "B", "B:A,Err0", "A:!e", "Err0:!e"))
 	add("package-level variable named like a generated variable", []string{"Config", "App"}, []string{"var config = 1", "var app0, configCh = 2, 3"}, nil,
